@@ -1,4 +1,5 @@
 import VermouthModel.C05
+import VermouthModel.C05_Run
 open Proto Iso C05
 
 /-
@@ -10,6 +11,8 @@ Encoding (see harness/c05.py):
   Param  : xstr | [ name [keys] fmt ]
   Mol    : nodes edges md inters cites      node = [ key attrs [ [name-part..].. ] ]
   Link   : [ nodes edges molmeta nonEdges patterns removed inters cites ]
+  Pos    : `-` (no position key) | [ x y z ] (lattice point) | xstr (any other position)
+  LinkLogs : [ [ level entry [ tag.. ] ].. ]      Logs : [ [ level entry [ item.. ] ].. ], item = xstr | [ [k v].. ]
 -/
 
 def valOf : Tok → Option Val
@@ -124,6 +127,109 @@ def encMol (m : Mol) : String :=
                                            encList (e.2.params.map encParam), encAttrs e.2.md]) ++ " " ++
   encList (m.cites.map encStr)
 
+/- positions, logs, evaluated parameters -/
+def posOfTok : Tok → Option Pos
+  | Tok.none => some Pos.missing
+  | Tok.list [x, y, z] => do pure (Pos.lattice (← x.int?) (← y.int?) (← z.int?))
+  | Tok.str _ => some Pos.opaque
+  | _ => none
+
+def posTableOf (t : Tok) : Option (List (Int × Pos)) := do
+  (← t.list?).mapM fun e => do
+    match ← e.list? with
+    | [k, p] => pure (← k.int?, ← posOfTok p)
+    | _ => none
+
+def linkLogsOf (t : Tok) : Option LinkLogs := do
+  (← t.list?).mapM fun e => do
+    match ← e.list? with
+    | [lv, en, tags] => pure (← lv.int?, ← en.str?, ← strs? tags)
+    | _ => none
+
+def logItemOf : Tok → Option LogItem
+  | Tok.str s => some (LogItem.tag s)
+  | t => (mapOfTok t).map LogItem.place
+
+def logsOf (t : Tok) : Option Logs := do
+  (← t.list?).mapM fun e => do
+    match ← e.list? with
+    | [lv, en, items] => pure ((← lv.int?, ← en.str?), ← (← items.list?).mapM logItemOf)
+    | _ => none
+
+def encEVal : Except EffErr EVal → String
+  | .ok (.lit s) => encStr s
+  | .ok (.dist2 d f) => encList [encStr "dist2", encInt d, encOptStr f]
+  | .ok (.sym n ks f) => encList [encStr n, encList (ks.map encInt), encOptStr f]
+  | .error .keyError => encStr "!KeyError"
+  | .error .notImplemented => encStr "!NotImplementedError"
+
+def encErr : EffErr → String
+  | .keyError => "KeyError"
+  | .notImplemented => "NotImplementedError"
+
+def encInters (pos : PosFn) (t : Table) : String :=
+  encList (t.map fun e => encList [encStr e.1, encList (e.2.atoms.map encInt),
+                                    encList (e.2.params.map fun p => encEVal (evalParam pos p)), encAttrs e.2.md])
+
+def encLogs (lg : Logs) : String :=
+  encList (lg.map fun e => encList [encInt e.1.1, encStr e.1.2,
+    encList (e.2.map fun | .tag s => encStr s | .place mp => encMap mp)])
+
+/-- the call sequence of the run; for every addition whether a later step interferes with it -/
+def encEvents (s0 : Mol × List Int) (evs : List Ev) : String :=
+  let tr := trace s0 evs
+  let rec go : List ((Mol × List Int) × Ev) → List String
+    | [] => []
+    | (s, ev) :: rest =>
+      (match ev with
+       | .setAttrs k _ => encList [encStr "set", encInt k]
+       | .mark k => encList [encStr "mark", encInt k]
+       | .rem ty d => encList [encStr "rem", encStr ty, encList (d.atoms.map encInt)]
+       | .add x _ =>
+         let wr := rest.any fun e => e.2.writes (keyOf x)
+         let rm := rest.any fun e => removesAt (keyOf x) x.2 e
+         let dl := rest.any fun e => deletesAt x.2 e
+         encList [encStr "add", encStr x.1, encList (x.2.atoms.map encInt), encVal (versionOf x.2.md),
+                  encBool wr, encBool rm, encBool dl]
+       | .drop => encList [encStr "drop", encList (s.2.map encInt)]) :: go rest
+  encList (go tr)
+
+def encMolX (pos : PosFn) (m : Mol) (lg : Logs) (events : String) : String :=
+  encList (m.nodes.map fun n => encList [encInt n.key, encAttrs n.attrs]) ++ " " ++
+  encList (m.edges.map fun e => encList [encInt e.1, encInt e.2]) ++ " " ++
+  encInters pos m.inters ++ " " ++
+  encList (m.cites.map encStr) ++ " " ++ encLogs lg ++ " " ++ events
+
+def optAttrsOf : Tok → Option (Option Attrs)
+  | Tok.none => some none
+  | t => (attrsOf t).map some
+
+/-- one call of the interaction-table API; the result is `none` when the call raises -/
+def tableOp (m : Mol) (t : Tok) : Option (Option Mol) := do
+  match ← t.list? with
+  | [Tok.str "add", ty, atoms, params, md] =>
+    pure (addInteraction m (← ty.str?) (← ints? atoms) (← (← params.list?).mapM paramOf) (← optAttrsOf md))
+  | [Tok.str "addrep", ty, atoms, params, md, cites] =>
+    let cs ← (match cites with
+      | Tok.none => some Option.none
+      | c => (strs? c).map some)
+    pure (addOrReplaceInteraction m (← ty.str?) (← ints? atoms) (← (← params.list?).mapM paramOf)
+            (← optAttrsOf md) cs)
+  | [Tok.str "remove", ty, atoms, ver] =>
+    pure (removeInteraction m (← ty.str?) (← ints? atoms) (← valOf ver))
+  | [Tok.str "remmatch", d] =>
+    let (ty, del) ← delOf d
+    pure (removeMatchingE m ty del)
+  | _ => none
+
+def runTableOps : Mol → List Tok → List String → Option (Mol × List String)
+  | m, [], acc => some (m, acc.reverse)
+  | m, t :: rest, acc =>
+    match tableOp m t with
+    | none => none
+    | some none => runTableOps m rest ("0" :: acc)
+    | some (some m') => runTableOps m' rest ("1" :: acc)
+
 def handle (_ : Unit) (toks : List Tok) : Unit × String :=
   let r : Option String :=
     match toks with
@@ -141,16 +247,59 @@ def handle (_ : Unit) (toks : List Tok) : Unit × String :=
         let m ← molOf nodes edges md (Tok.list []) (Tok.list [])
         let l ← linkOf link
         let nraw := if attributesMatch m.md l.molmeta [] then (rawMatches m l).length else 0
-        match matchLinkE m l with
-        | some ps => pure (encNat nraw ++ " " ++ encList (ps.map encMap))
-        | none => pure "error"
-    | [Tok.str "apply", nodes, edges, md, inters, cites, links, given] => do
+        match matchLinkV m l with
+        | .yields ps => pure (encNat nraw ++ " " ++ encList (ps.map encMap))
+        | .either ps => pure (encStr "either" ++ " " ++ encNat nraw ++ " " ++ encList (ps.map encMap))
+        | .raises => pure "error"
+    | [Tok.str "apply", nodes, edges, md, inters, cites, links, given, pos, llogs, logs0] => do
         let m ← molOf nodes edges md inters cites
         let ls ← (← links.list?).mapM linkOf
         let gs ← (← given.list?).mapM (fun g => do (← g.list?).mapM mapOfTok)
-        match applyLinksE m ls gs with
-        | some r => pure (encMol r)
-        | none => pure "error"
+        let ptab ← posTableOf pos
+        let posf : PosFn := fun a => ptab.lookup a
+        let lls ← (← llogs.list?).mapM linkLogsOf
+        let lg0 ← logsOf logs0
+        let res := applyLinksX posf m ls gs
+        let flag := encBool res.maybe
+        match res.out with
+        | .error .matching => pure (flag ++ " " ++ encStr "error" ++ " " ++ encStr "match")
+        | .error (.eff e) => pure (flag ++ " " ++ encStr "error" ++ " " ++ encStr (encErr e))
+        | .ok s =>
+          let log := runLog (m, []) ls gs
+          let evs := logEvents log
+          let s' := run (m, []) evs
+          -- `applyLinks = run ∘ runEvents` is a theorem; the driver executes both and says so if they differ
+          let same := encMol s.1 == encMol s'.1
+          pure (flag ++ " " ++ (if same then "" else encStr "RUN-DIFFERS" ++ " ") ++
+                encMolX posf s.1 (runLogs log lls lg0) (encEvents (m, []) evs) ++ " " ++
+                encList (s.1.nodes.map fun n => encList [encInt n.key, encAttrs (attrWrites n.key evs)]))
+    | [Tok.str "effnew", name, keys, fmt] => do
+        match effNew (← name.str?) (← ints? keys) (← fmt.optStr?) with
+        | some _ => pure "ok"
+        | none => pure "valueerror"
+    | [Tok.str "effeq", a, b] => do
+        pure (encBool (effEq (← paramOf a) (← paramOf b)))
+    | [Tok.str "effcall", name, keys, fmt, mp, pos] => do
+        let ptab ← posTableOf pos
+        pure (encEVal (effCall (fun a => ptab.lookup a) (← mapOfTok mp) (← name.str?) (← ints? keys) (← fmt.optStr?)))
+    | [Tok.str "table", nodes, edges, md, inters, cites, ops, types] => do
+        let m ← molOf nodes edges md inters cites
+        let (m', flags) ← runTableOps m (← ops.list?) []
+        let tys ← strs? types
+        pure (encList flags ++ " " ++
+              encList (tys.map fun ty => encList [encStr ty, encList ((getInteraction m' ty).map fun i =>
+                encList [encList (i.atoms.map encInt), encList (i.params.map encParam), encAttrs i.md])]) ++ " " ++
+              encList (m'.cites.map encStr))
+    | [Tok.str "pairwise", tbl] => do
+        let es ← (← tbl.list?).mapM fun e => do
+          match ← e.list? with
+          | [o, r] => pure (← orderOf o, ← r.int?)
+          | _ => none
+        let v := match pairwiseVerdict es with
+          | .yes => "yes" | .no => "no" | .raises => "raises" | .either => "either"
+        let sq := match pairwiseSeq es with
+          | some b => encBool b | none => "valueerror"
+        pure (v ++ " " ++ sq)
     | _ => none
   ((), r.getD "bad-op")
 
